@@ -284,7 +284,12 @@ TinyInst ==
                                                   R \in { g[4] : g \in Geoms } }
 Instances == WrapInst \cup ProjectInst \cup TransformInst \cup RelocInst \cup TinyInst
 
-Init == /\ inst \in Instances
+\* (one disjunct per family: TLC enumerates them one after the other instead of normalising one huge union)
+Init == /\ \/ inst \in WrapInst
+           \/ inst \in ProjectInst
+           \/ inst \in TransformInst
+           \/ inst \in RelocInst
+           \/ inst \in TinyInst
         /\ phase = "call"
         /\ obs = << >>
         /\ grid = BuiltTerms(Cardinality(inst.u))
